@@ -20,34 +20,43 @@ Faults(n) == UNION {[1..k -> BOOLEAN] : k \in 0..n}
 FaultsNZ(n) == {f \in Faults(n) : \E k \in 1..Len(f) : f[k]}
 
 \* ---- healthy executor
-\* 2 producers x 2 items + a joiner thread, capacity 1 / 2 / 4, both executors
-Cfg_h2 == { Cfg(cap, m, <<>>, T, <<E2, E2, J1>>) : cap \in {1, 2, 4}, m \in Modes }
-\* producers that join themselves
-Cfg_hj == { Cfg(cap, m, <<>>, T, <<EEJ, EJ>>) : cap \in {1, 2}, m \in Modes }
-\* 3 producers x 2 items
-Cfg_h3 == { Cfg(cap, m, <<>>, T, <<E2, E2, E2>>) : cap \in {1, 2, 4}, m \in Modes }
-Cfg_h3j == { Cfg(cap, m, <<>>, T, <<E2, E2, EEJ>>) : cap \in {1, 2}, m \in Modes }
+\* 2 producers x 2 items, one of them joins; capacity 1 / 2 (blocking, ring wrap) and 4 (never full)
+Cfg_h2 == { Cfg(cap, m, <<>>, T, <<E2, EJ>>) : cap \in {1, 2, 4}, m \in Modes }
+\* (deepening, > 1M states: both producers with 2 items and a join)
+Cfg_h2x == { Cfg(cap, m, <<>>, T, <<E2, EEJ>>) : cap \in {1, 2}, m \in Modes }
+\* a separate joining thread
+Cfg_hj == { Cfg(cap, m, <<>>, T, p) : cap \in {1, 2}, m \in Modes, p \in {<<E1, E1, J1>>, <<E2, J1>>} }
+\* (deepening, 1.5M states)
+Cfg_hjx == { Cfg(cap, m, <<>>, T, <<E2, E1, J1>>) : cap \in {1, 2}, m \in Modes }
+\* 3 producers
+Cfg_h3 == { Cfg(cap, m, <<>>, T, <<E1, E1, EJ>>) : cap \in {1, 2}, m \in Modes }
+\* 3 producers x 2 items (inline executor: the consumer is one of the producers)
+Cfg_h3x2 == { Cfg(2, "i", <<>>, T, <<E2, E2, E2>>) }
 \* ---- executor that refuses scripted attempts
 \* every fault sequence up to length 3, retrying producers (cap 1: blocked pushers need the retry)
 Cfg_f2 == { Cfg(cap, m, f, T, <<E2, EJ>>) : cap \in {1, 2}, m \in Modes, f \in FaultsNZ(3) }
-\* no retry by the producers: the next task / the main thread's signal resumes consumption (capacity >= items)
-Cfg_f2n == { Cfg(4, m, f, F, <<E2, <<"e", "s", "j">> >>) : m \in Modes, f \in FaultsNZ(3) }
-Cfg_f3 == { Cfg(cap, m, f, T, <<E2, E1, EJ>>) : cap \in {1, 2}, m \in Modes, f \in FaultsNZ(3) }
-\* ---- quick family
-Cfg_quick == { Cfg(cap, m, <<>>, T, <<E2, EJ>>) : cap \in {1, 2}, m \in Modes }
-       \cup { Cfg(2, m, <<>>, T, <<E2, E2, J1>>) : m \in Modes }
-       \cup { Cfg(cap, m, f, T, <<E2, EJ>>) : cap \in {1, 2}, m \in Modes, f \in FaultsNZ(2) }
-       \cup { Cfg(2, m, f, F, <<E1, <<"e", "s", "j">> >>) : m \in Modes, f \in FaultsNZ(2) }
+\* no retry by the producers: the next task / an explicit signal / the main thread's signal resumes consumption
+Cfg_f2n == { Cfg(2, m, f, F, <<E1, <<"e", "s", "j">> >>) : m \in Modes, f \in FaultsNZ(3) }
+\* 3 producers
+Cfg_f3 == { Cfg(2, m, <<T>>, T, <<E1, E1, EJ>>) : m \in Modes }
+\* ---- quick family (one of each kind: two-thread contention, capacity 1 blocking, inline, two-segment
+\* poll, refused launch with retry / with the next task / with the main thread's signal)
+E3 == <<"e", "e", "e">>
+ES == <<"e", "s">>
+Cfg_quick == { Cfg(1, "a", <<>>, T, <<E2, J1>>), Cfg(2, "i", <<>>, T, <<E1, EJ>>), Cfg(2, "a", <<>>, T, <<E1, EJ>>),
+               Cfg(2, "a", <<>>, T, <<E3>>),
+               Cfg(2, "a", <<T>>, T, <<E1, EJ>>), Cfg(1, "i", <<T>>, T, <<E1, EJ>>), Cfg(2, "a", <<F, T>>, F, <<E1, ES>>),
+               Cfg(1, "a", <<T, T>>, T, <<E2>>), Cfg(2, "i", <<T, F, T>>, F, <<E1, E1>>) }
 \* ---- the join clause exactly as stated (see finding C16_join_behind_inflight_push)
 Cfg_joinstrict == { Cfg(2, m, <<>>, T, <<E1, E1, J1>>) : m \in Modes }
 \* ---- weak memory (Stale = TRUE): the acquire / release edges on _events carry the publication
-Cfg_wm == { Cfg(cap, "a", <<>>, T, <<E1, EJ>>) : cap \in {1, 2} }
-     \cup { Cfg(2, "i", <<>>, T, <<E1, EJ>>) }
-     \cup { Cfg(2, "a", <<T>>, T, <<E1, EJ>>) }
-Cfg_wm2 == { Cfg(2, m, f, T, <<E2, EJ>>) : m \in Modes, f \in {<<>>, <<T>>, <<F, T>>} }
+Cfg_wm == { Cfg(2, "a", <<>>, T, <<E1, EJ>>), Cfg(1, "a", <<T>>, T, <<E2>>) }
+Cfg_wm2 == { Cfg(cap, "a", <<>>, T, <<E1, EJ>>) : cap \in {1, 2} }
+     \cup { Cfg(2, "i", <<>>, T, <<E1, EJ>>), Cfg(2, "a", <<T>>, T, <<E1, EJ>>), Cfg(2, "a", <<>>, T, <<E2, J1>>) }
+     \cup { Cfg(2, m, f, T, <<E2, E1>>) : m \in Modes, f \in {<<>>, <<T>>} }
 \* ---- liveness (tiny)
-Cfg_live == { Cfg(1, m, f, T, <<E2, EJ>>) : m \in Modes, f \in {<<>>, <<T>>, <<T, T>>, <<F, T>>} }
-       \cup { Cfg(2, m, f, F, <<E1, E1>>) : m \in Modes, f \in {<<T>>, <<F, T>>} }
+Cfg_live == { Cfg(1, "a", <<T>>, T, <<E2>>), Cfg(2, "i", <<>>, T, <<E1, EJ>>), Cfg(2, "a", <<F, T>>, F, <<E1, E1>>),
+              Cfg(1, "i", <<T, T>>, T, <<E1, E1>>) }
 
 Next == \/ \E t \in Thr : Step(t, MOf)
         \/ (AllDone /\ UNCHANGED vars)
@@ -61,5 +70,5 @@ View == <<cfg, ms, pc, L, Q, H>>
 Termination == <>[]AllDone
 AllItems == {t * 100 + k : t \in 1..3, k \in 1..2}
 NoStrandingLive == \A x \in AllItems : (x \in H.sig) ~> (x \in H.consEnd)
-JoinReturns == \A t \in 0..3 : (t \in Thr /\ pc[t] \in {"j_load", "j_sleep"}) ~> (pc[t] = "ret")
+JoinReturns == \A t \in 0..3 : (t \in Thr /\ pc[t] \in {"j_load", "j_sleep"}) ~> (t \in Thr /\ pc[t] = "ret")
 =============================================================================
